@@ -580,6 +580,8 @@ def canon_nc(nc, root, table, problems):
         except codec.OutOfModel:
             anc.append([apa, ["?", repr(aref)]])
     out["anc"] = anc
+    # the raw text the Processor accumulated section by section (Lean: Acc.accObj_eq / Acc.joinText)
+    out["orig"] = getattr(nc.path, "original", None) if nc.path is not None else None
     try:
         out["path"] = str(nc.path) if nc.path is not None else None
     except Timeout:
@@ -587,6 +589,29 @@ def canon_nc(nc, root, table, problems):
     except Exception:  # the reported path does not even parse
         out["path"] = None
         problems.append("reported-path-does-not-parse")
+    if RENDER_BOTH and out["path"] is not None:
+        out["rendered"] = rendered_paths(nc.path)
+    return out
+
+
+RENDER_BOTH = False     # set by compare_chunk for C02: also render every reported path in dot and in forward-slash notation
+
+
+def rendered_paths(path):
+    """The reported path rendered in each notation by the library's own means: a copy of the path whose `separator`
+    is set to the notation, then str().  {"dot": text | None, "fslash": text | None} (None: rendering raised)."""
+    from yamlpath import YAMLPath
+    from yamlpath.enums import PathSeparators
+    out = {}
+    for name, sep in (("dot", PathSeparators.DOT), ("fslash", PathSeparators.FSLASH)):
+        try:
+            cp = YAMLPath(path)
+            cp.separator = sep
+            out[name] = str(cp)
+        except Timeout:
+            raise
+        except Exception:
+            out[name] = None
     return out
 
 
@@ -675,12 +700,15 @@ def err_class(e):
     return "ypath" if e.startswith("ypath") else e
 
 
-def seg_kinds(segs):
-    """Segment kinds of a path; a keyword search is named by its keyword (KW:parent, KW:has_child, …)."""
+def seg_kinds(segs, slices=False):
+    """Segment kinds of a path; a keyword search is named by its keyword (KW:parent, KW:has_child, …); with `slices`
+    (C02) an INDEX segment that is a slice `[a:b]` is named SLICE."""
     out = []
     for t, a in segs:
         if t == "KEYWORD_SEARCH" and isinstance(a, dict) and "keyword" in a:
             out.append("KW:" + a["keyword"]["kw"].lower())
+        elif slices and t == "INDEX" and isinstance(a, str):
+            out.append("SLICE")
         else:
             out.append(t)
     return ",".join(out)
@@ -697,6 +725,8 @@ def compare_chunk(args):
     opts: {"c02": bool, "slash": bool}"""
     cases, opts = args
     core.use_repo()
+    global RENDER_BOTH
+    RENDER_BOTH = bool(opts.get("c02"))
     stats = {"n": 0, "queries": 0, "nonempty": 0, "ypath": 0, "crash": 0, "oom": 0, "unparsable": 0, "slash_skipped": 0,
              "opt_compared": 0, "virtual": 0, "c09_mutations": 0, "deep_results": 0, "requeries": 0,
              "kinds": {}, "docsize": {}}
@@ -736,7 +766,7 @@ def compare_chunk(args):
     answers = core.Driver().ask(reqs) if reqs else []
     for (doc, items, text, segs, req, d, table), mo in zip(prepared, answers):
         case = {"doc": doc, "path": text, "items": items}
-        kinds = seg_kinds(segs)
+        kinds = seg_kinds(segs, bool(opts.get("c02")))
         for t, _a in segs:
             stats["kinds"][t] = stats["kinds"].get(t, 0) + 1
         sz = count_nodes(doc)
@@ -769,6 +799,12 @@ def compare_chunk(args):
                        dict(case, query=qn, impl=qo, prop="C15"))
             if qo.get("mutated"):
                 stats["c09_mutations"] += 1
+        # ---- C02, the clauses that need no model: keyword paths and the optional mode (judged whether or not the model
+        # covers the case)
+        kw_path = has_keyword(segs)
+        kw_name = "KW:name" in kinds.split(",")
+        if opts.get("c02") and req.get("err") is None and not kw_name:
+            c02_model_free(case, kinds, req, kw_path, stats, report, viol)
         if oom:
             stats["oom"] += 1
             continue
@@ -781,9 +817,9 @@ def compare_chunk(args):
         impl_err = req.get("err")
         if impl_err == "ypath":
             stats["ypath"] += 1
-        # keyword results: [name()] yields a key, not a document node - coordinates of keyword paths are not judged (C02)
-        kw_path = has_keyword(segs)
-        probs = [] if kw_path else (req.get("problems") or [])
+        # keyword results: [name()] yields a key, not a document node - its coordinates are not judged (C02); the results of
+        # every other keyword (parent, has_child, min, max, unique, distinct) are document nodes and are judged directly
+        probs = [] if kw_name or opts.get("c02") else (req.get("problems") or [])      # C02: reported by c02_model_free
         impl_addrs = None if impl_err else [addr_only(r) for r in req["res"]]
         spec_g = dict(m_spec)
         # get_nodes(mustexist=True) raises when nothing matched; a null document yields nothing
@@ -853,6 +889,8 @@ def compare_chunk(args):
         # ---- C02: coordinates, ancestry, path text, re-query
         if opts.get("c02") and impl_err is None and not bad and not kw_path:
             c02_compare(case, kinds, req, m_req, d, table, stats, report, viol)
+        elif opts.get("c02") and impl_err is None and not kw_path:
+            c02_direct(case, kinds, req, stats, report, viol, "", (), "unmodelled")    # C01 differs: no model to compare with
         if len(samples) < 2 and impl_err is None and impl_addrs and len(segs) > 1:
             samples.append({"doc": doc, "path": text, "impl": impl_addrs, "spec": spec_addrs})
     stats["nontrivial"] = len(nontrivial)
@@ -901,20 +939,129 @@ def c02_compare(case, kinds, req, m_req, d, table, stats, report, viol):
             report(viol, "c02:path-segments-differ-from-model:%s" % kinds,
                    "%r: result %s reports path %r; the model expects %r" % (text, a, ptxt, dotted(mr.get("path") or [])),
                    dict(case, impl=ir, model=mr, prop="C02-model"))
+        # the accumulated raw text is the model's sections joined by the dot (Acc.accObj_eq): compared as text
+        # whenever no section holds two adjacent escaped backslashes (escape_path_section copies such a pair: C07-K6)
+        mtxt = dotted(mr.get("path") or [])
+        if ir.get("orig") is not None and ir["orig"] != mtxt and "\\\\\\\\" not in mtxt:
+            report(viol, "c02:accumulated-path-text-differs-from-model:%s" % kinds,
+                   "%r: result %s accumulated the path text %r; the model's sections give %r" % (text, a, ir["orig"], mtxt),
+                   dict(case, impl=ir, model=mr, prop="C02-model"))
+        judge_reported_path(case, kinds, ir, isegs, stats, report, viol, dict(model=mr))
+
+
+def reresolves(doc, ptxt, a, isegs):
+    """Does the path text, evaluated by the real Processor on a fresh copy of the document, return exactly the node at
+    address a (every bearer of the anchor when the path names one)?  -> (ok, query outcome, addresses)"""
+    rq, rd, _rt = run_query(doc, ptxt, "req")
+    got = None if rq.get("err") else [addr_only(x) for x in rq["res"]]
+    # a path that names an anchor returns the node once per place it is aliased
+    has_anchor = any(sg[0] == "ANCHOR" for sg in (isegs or []))
+    if has_anchor and got is not None and a in got:
+        node_obj = resolve(rd, a)
+        if isegs[-1][0] == "ANCHOR" or all(isinstance(x, list) and resolve(rd, x) is node_obj for x in got):
+            return True, rq, got
+    return got == [a], rq, got
+
+
+def judge_reported_path(case, kinds, ir, isegs, stats, report, viol, extra=None, mode=""):
+    """str(result.path) re-queried returns exactly the result; so does the path rendered in dot and in forward-slash
+    notation through the `separator` setter ("this holds in both notations")."""
+    text, a, ptxt = case["path"], ir["a"], ir["path"]
+    stats["requeries"] += 1
+    ok, rq, got = reresolves(case["doc"], ptxt, a, isegs)
+    if not ok:
+        report(viol, "c02:%spath-does-not-reresolve:%s" % (mode, kinds),
+               "%s%r: result %s reports path %r, which evaluates to %s" % (mode and mode[:-1] + " query ", text, a, ptxt, rq.get("err") or got),
+               dict(case, impl=ir, requery=rq, prop="C02", **(extra or {})))
+        return
+    for nota, rtxt in sorted((ir.get("rendered") or {}).items()):
+        if rtxt == ptxt:
+            continue
+        if rtxt is None:
+            report(viol, "c02:%spath-does-not-render-in-%s:%s" % (mode, nota, kinds),
+                   "%r: the path %r of result %s cannot be rendered in %s notation (separator setter + str() raised)" % (
+                       text, ptxt, a, nota), dict(case, impl=ir, notation=nota, prop="C02"))
+            continue
         stats["requeries"] += 1
-        rq, rd, rtable = run_query(case["doc"], ptxt, "req")
-        got = None if rq.get("err") else [addr_only(x) for x in rq["res"]]
-        # a path that names an anchor returns the node once per place it is aliased
-        has_anchor = any(sg[0] == "ANCHOR" for sg in (isegs or []))
-        if has_anchor and got is not None and a in got:
-            last_is_anchor = isegs[-1][0] == "ANCHOR"
-            node_obj = resolve(rd, a)
-            if last_is_anchor or all(isinstance(x, list) and resolve(rd, x) is node_obj for x in got):
-                continue
-        if got != [a]:
-            report(viol, "c02:path-does-not-reresolve:%s" % kinds,
-                   "%r: result %s reports path %r, which evaluates to %s" % (text, a, ptxt, rq.get("err") or got),
-                   dict(case, impl=ir, requery=rq, prop="C02"))
+        stats["rendered_requeries"] = stats.get("rendered_requeries", 0) + 1
+        rsegs = with_timer(lambda: parse_segments(rtxt))
+        ok, rq, got = reresolves(case["doc"], rtxt, a, rsegs)
+        if not ok:
+            report(viol, "c02:%spath-does-not-reresolve-in-%s:%s" % (mode, nota, kinds),
+                   "%r: result %s reports path %r; rendered in %s notation (separator setter) it is %r, which evaluates to %s" % (
+                       text, a, ptxt, nota, rtxt, rq.get("err") or got),
+                   dict(case, impl=ir, notation=nota, rendered=rtxt, requery=rq, prop="C02"))
+
+
+def c02_model_free(case, kinds, req, kw_path, stats, report, viol):
+    """The C02 clauses judged on the real code alone, for a required query that succeeded (so every node the path names
+    exists): coordinate problems of every result; keyword paths in full (c02_direct); and the results of the same query in
+    the DEFAULT optional mode (get_nodes(mustexist=False), which runs other code: _get_optional_nodes) - coordinates,
+    ancestry chain, and re-resolution of every reported path the required query has not already shown to re-resolve."""
+    text = case["path"]
+    probs = req.get("problems") or []
+    if probs:
+        report(viol, "c02:%s:%s" % (probs[0], kinds), "result coordinates of %r: %s" % (text, probs),
+               dict(case, impl=req, prop="C02"))
+    if kw_path:
+        c02_direct(case, kinds, req, stats, report, viol)
+    opt, od, _ot = run_query(case["doc"], text, "opt")
+    stats["queries"] += 1
+    if opt.get("err") is not None:
+        return          # an optional query that raises on an existing path is C01's / C15's business
+    try:
+        after = codec.node_to_json(od)
+    except Exception:
+        after = None
+    if after != case["doc"] or len(opt["res"]) != len(req["res"]):
+        # a multi-match segment (`*`, `**`, a search, a pass-through key) reached a branch in which the rest of the path
+        # does not exist, and the optional mode built it (in the document, or in the temporary list of a slice result - then
+        # the document is unchanged but there are more results than matches): not all results are nodes of the document as
+        # given (C09's subject)
+        stats["opt_created"] = stats.get("opt_created", 0) + 1
+        return
+    stats["opt_judged"] = stats.get("opt_judged", 0) + 1
+    oprobs = opt.get("problems") or []
+    if oprobs:
+        report(viol, "c02:optional:%s:%s" % (oprobs[0], kinds), "result coordinates of optional query %r: %s" % (text, oprobs),
+               dict(case, query="opt", impl=opt, prop="C02"))
+    seen = set()
+    for ir in req["res"]:
+        if "v" not in ir and ir.get("a") is not None and ir.get("anc_walk") is None:
+            seen.add(json.dumps([ir["a"], ir.get("path"), ir.get("rendered")], sort_keys=True))
+    c02_direct(case, kinds, opt, stats, report, viol, "optional:", seen)
+
+
+def c02_direct(case, kinds, req, stats, report, viol, mode="", seen=(), tag="kw"):
+    """The property's clauses judged on the real code alone (keyword paths without [name()]; results of the optional
+    mode, mode="optional:").  parent[parentref] is the node (canon_nc -> problems, reported by the caller); the ancestry
+    walks from the root to the node; str(path) - and the path rendered in either notation - re-queried on the same
+    document returns exactly that node."""
+    text = case["path"]
+    if not mode:
+        stats[tag + "_judged"] = stats.get(tag + "_judged", 0) + 1
+    for ir in req["res"]:
+        if "v" in ir or ir.get("a") is None:
+            continue
+        a = ir["a"]
+        if not mode:
+            if len(a) >= 2:
+                stats["deep_results"] += 1
+            stats[tag + "_results"] = stats.get(tag + "_results", 0) + 1
+        else:
+            stats["opt_results"] = stats.get("opt_results", 0) + 1
+        if ir.get("anc_walk") is not None:
+            report(viol, "c02:%sancestry-not-chain:%s" % (mode, kinds), "%s%r: ancestry of result %s: %s" % (
+                mode and mode[:-1] + " query ", text, a, ir["anc_walk"]), dict(case, impl=ir, prop="C02"))
+            continue
+        ptxt = ir.get("path")
+        if ptxt is None:
+            report(viol, "c02:%sno-path:%s" % (mode, kinds), "%r: result %s has no path" % (text, a), dict(case, prop="C02"))
+            continue
+        if json.dumps([a, ptxt, ir.get("rendered")], sort_keys=True) in seen:
+            continue        # same node, same reported path as a result of the required query: judged there
+        isegs = with_timer(lambda: parse_segments(ptxt))
+        judge_reported_path(case, kinds, ir, isegs, stats, report, viol, None, mode)
 
 
 # --------------------------------------------------------------------------- collectors (C15, direct check only)
@@ -991,17 +1138,32 @@ def collector_chunk(args):
 # --------------------------------------------------------------------------- keyword segments (C15, direct check only)
 
 
+KEYWORDS = ["has_child", "name", "max", "min", "parent", "unique", "distinct"]
+# keyword parameter texts at the edges of the parameter parser: blanks (dropped when bare, kept when quoted or escaped),
+# empty quotes, the anchor mark alone, lone / unbalanced quotes, separators without values
+KEYWORD_PARAM_TEXTS = ['" "', "' '", '"  "', "'   '", '""', "''", " ", "  ", "\\ ", "\\ \\ ", "&", '"&"', "& ", '" &"', '"& "', "&&",
+                       '" &x"', "'&x '", "&x", '"', "'", "\\\"", "\\'", '"\'', ",", ",,", "a,", ",a", " , ", '" "," "', '"",""', "'',a",
+                       '","', "', '", '"a"', "' a '", "a b", '"a b"', "0", '" 0"', "-1", '"-1 "', "a", "\\&x", "\\,", '" ", a']
+
+
+def keyword_param_items():
+    """`[kw(<text>)]` and `[!kw(<text>)]` for every keyword x every parameter text of KEYWORD_PARAM_TEXTS."""
+    return ["[%s%s(%s)]" % (inv, kw, t) for kw in KEYWORDS for inv in ("", "!") for t in KEYWORD_PARAM_TEXTS]
+
+
 def keyword_chunk(args):
-    """cases: (doc, items).  Direct C15 check of paths holding a keyword segment (outside the evaluator model)."""
+    """cases: (doc, items).  Direct C15 check of paths holding a keyword segment (outside the evaluator model).
+    opts["kw_opt"]: also through get_nodes(mustexist=False)."""
     cases, _opts = args
     core.use_repo()
     stats = {"n": 0, "ok": 0, "ypath": 0, "crash": 0}
     viol = []
     per_sig = {}
+    modes = ("req", "exists", "opt") if _opts.get("kw_opt") else ("req", "exists")
     for doc, items in cases:
         stats["n"] += 1
         text = path_text(items, False)
-        for mode in ("req", "exists"):
+        for mode in modes:
             out, _d, _t = run_query(doc, text, mode)
             e = out.get("err")
             if e is None:
@@ -1017,3 +1179,331 @@ def keyword_chunk(args):
                     viol.append((sig, "%s query %r (keyword segment) raised %s at %s" % (mode, text, e, out.get("site")),
                                  {"doc": doc, "path": text, "items": items, "prop": "C15", "impl": out}))
     return stats, viol
+
+
+# --------------------------------------------------------------------------- collectors against the model (C01, wave w3)
+# Additive block: the evaluator model `W3.requiredM` (lean/Ypv/Model/Collector.lean) parses the path TEXT itself
+# (parser model) and threads the document through the evaluation; driver op `C01.coll`.
+
+W3_VALS = [{"k": "int", "v": "1"}, {"k": "int", "v": "2"}, {"k": "str", "v": "a"}, {"k": "str", "v": "1"}, {"k": "bool", "v": True},
+           {"k": "float", "m": "15", "e": -1}, {"k": "null"}, {"k": "str", "v": "ab"}, {"k": "int", "v": "0"}]
+W3_KEYS = ["a", "b", "c", "x", "y", 1, 0]
+
+
+def w3_dealias(j, seen=None):
+    """Drop every anchor name that already occurred (no shared objects: the model has none)."""
+    if seen is None:
+        seen = set()
+    j = dict(j)
+    a = j.get("a")
+    if a is not None:
+        if a in seen:
+            del j["a"]
+        else:
+            seen.add(a)
+    if j["k"] == "map":
+        j["e"] = [[k, w3_dealias(v, seen)] for k, v in j["e"]]
+    elif j["k"] == "seq":
+        j["i"] = [w3_dealias(v, seen) for v in j["i"]]
+    return j
+
+
+def w3_shared_doc(rng):
+    """Hashes (and lists of hashes / scalars) sharing keys and values, so that - and & have something to do."""
+    def small_map():
+        ks = rng.sample(["x", "y", "a", "b", 1], rng.randint(0, 3))
+        return {"k": "map", "e": [[k, leaf()] for k in ks]}
+
+    def leaf():
+        r = rng.random()
+        if r < 0.75:
+            return dict(rng.choice(W3_VALS[:5]))
+        if r < 0.85:
+            return {"k": "seq", "i": [dict(rng.choice(W3_VALS[:4])) for _ in range(rng.randint(0, 3))]}
+        return small_map()
+
+    def member():
+        r = rng.random()
+        if r < 0.45:
+            return small_map()
+        if r < 0.65:
+            return {"k": "seq", "i": [small_map() if rng.random() < 0.6 else leaf() for _ in range(rng.randint(0, 3))]}
+        if r < 0.75:
+            return {"k": "seq", "i": [dict(rng.choice(W3_VALS)) for _ in range(rng.randint(0, 4))]}
+        if r < 0.8:
+            return {"k": "set", "m": rng.sample(["a", "b", "x", 1], rng.randint(0, 3))}
+        return leaf()
+    def twin(j):
+        """A copy in which some scalars are replaced by look-alikes (1 / "1", true / "True": unequal, same str())."""
+        j = json.loads(json.dumps(j))
+        if j["k"] == "map":
+            j["e"] = [[k, twin(v)] for k, v in j["e"] if rng.random() < 0.9]
+        elif j["k"] == "seq":
+            j["i"] = [twin(v) for v in j["i"]]
+        elif rng.random() < 0.4:
+            if j["k"] == "int":
+                return {"k": "str", "v": j["v"]}
+            if j["k"] == "bool":
+                return {"k": "str", "v": "True" if j["v"] else "False"}
+            if j["k"] == "str" and j["v"] == "1":
+                return {"k": "int", "v": "1"}
+        return j
+    if rng.random() < 0.8:
+        ks = rng.sample(W3_KEYS, rng.randint(1, 4))
+        es = [[k, member()] for k in ks]
+        if len(es) >= 2 and rng.random() < 0.4:
+            es[1][1] = twin(es[0][1])
+        return {"k": "map", "e": es}
+    items = [member() for _ in range(rng.randint(1, 4))]
+    if len(items) >= 2 and rng.random() < 0.4:
+        items[1] = twin(items[0])
+    return {"k": "seq", "i": items}
+
+
+def w3_addr_paths(j, pre="", out=None, depth=0):
+    """Straight paths (dot notation, plain keys / [i]) to the nodes of a document."""
+    if out is None:
+        out = []
+    if depth > 3:
+        return out
+    if j["k"] == "map":
+        for k, v in j["e"]:
+            ks = str(k)
+            if not ks or any(c in ks for c in " ./\\[]()&*!{}'\"#=~^$%,:<>@|;?+-"):
+                continue
+            p = (pre + "." if pre else "") + ks
+            out.append(p)
+            w3_addr_paths(v, p, out, depth + 1)
+    elif j["k"] == "seq":
+        for i, v in enumerate(j["i"]):
+            p = pre + "[%d]" % i
+            out.append(p)
+            w3_addr_paths(v, p, out, depth + 1)
+    return out
+
+
+W3_GENERIC = ["*", "**", "a", "b", "x", "a.x", "a.*", "*.x", "[0]", "[1]", "[-1]", "[0:2]", "[1:1]", "a[0]", "[.=a]", "[.>0]", "[x=1]",
+              "[.!=1]", "1", "0", "[&x]", "a.b", "b.a", "c", "y", "*.*", "[a:b]", "[.^a]", ""]
+
+
+def w3_operand(rng, paths, depth=0, near=None):
+    r = rng.random()
+    if near and r < 0.2:
+        # a sibling of the first operand, or something below a sibling (twins live there)
+        cut = max(near.rfind("."), near.rfind("["))
+        par = near[:cut] if cut > 0 else ""
+        sib = [q for q in paths if q != near and not q.startswith(near) and q.startswith(par) and q.count(".") + q.count("[") <= near.count(".") + near.count("[") + 1]
+        if sib:
+            p = rng.choice(sib)
+            return p + ".*" if rng.random() < 0.3 else p
+    if near and r < 0.5:
+        rel = [q for q in paths if q != near and (q.startswith(near) or near.startswith(q))]
+        if rel:
+            p = rng.choice(rel)
+            return p + ".*" if rng.random() < 0.2 else p
+    if r < 0.72 and paths:
+        p = rng.choice(paths)
+        q = rng.random()
+        if q < 0.15:
+            return p + ".*"
+        if q < 0.2:
+            return p + "[0:2]"
+        return p
+    if r < 0.8 and depth < 2:
+        return w3_collector(rng, paths, depth + 1, tail=False)
+    return rng.choice(W3_GENERIC)
+
+
+def w3_collector(rng, paths, depth=0, tail=True):
+    n = rng.choice([1, 2, 2, 2, 3, 3, 4]) if depth == 0 else rng.choice([1, 2, 2])
+    first = w3_operand(rng, paths, depth)
+    near = first[:-2] if first.endswith(".*") else first
+    near = near if near in paths else None
+    text = "(%s)" % first
+    for _ in range(n - 1):
+        text += rng.choice(["+", "-", "-", "&"]) + "(%s)" % w3_operand(rng, paths, depth, near)
+    if tail:
+        text += rng.choice(["", "", "", "", "", "", "", "", "", "", "", "[0]", "[1]", "[-1]", "[0:2]", "[1:1]", ".a", ".x", "[0].x", "[0][0]", ".0",
+                            "[7]", "[.=a]", ".(x)", "(x)", ".(x)+(y)", "[0](x)-(y)"])
+        if depth == 0 and rng.random() < 0.12 and paths:
+            text = rng.choice(paths) + "." + text
+    return text
+
+
+def w3_leaves(nc, table, out):
+    from yamlpath.wrappers import NodeCoords
+    from ruamel.yaml.comments import CommentedSet
+    node = nc.node
+    if isinstance(node, NodeCoords):
+        return w3_leaves(node, table, out)
+    if type(node) is list:
+        for e in node:
+            if isinstance(e, NodeCoords):
+                w3_leaves(e, table, out)
+            else:
+                out.append({"raw": True})
+        return
+    leaf = {"n": codec.node_to_json(node)}
+    p = nc.parent
+    leaf["p"] = None if p is None else table.get(id(p), "not-in-document")
+    try:
+        leaf["r"] = None if nc.parentref is None else codec.key_to_json(nc.parentref)
+    except Exception:
+        leaf["r"] = "?"
+    if isinstance(node, (dict, list, CommentedSet, set)):
+        leaf["a"] = table.get(id(node), "not-in-document")
+    out.append(leaf)
+
+
+def w3_run(doc_json, text, mode):
+    from yamlpath import Processor
+    d = codec.json_to_ruamel(doc_json)
+    table = codec.build_addr_table(d)
+    p = Processor(core.quiet_logger(), d)
+    try:
+        def go():
+            if mode == "exists":
+                return {"exists": bool(p.exists(text))}
+            ncs = list(p.get_nodes(text, mustexist=True))
+            res = []
+            for nc in ncs:          # after the generator is exhausted: the nodes reflect every deletion
+                leaves = []
+                w3_leaves(nc, table, leaves)
+                res.append(leaves)
+            return {"res": res}
+        out = with_timer(go)
+    except Timeout:
+        out = {"err": "timeout", "site": "?"}
+    except RecursionError as e:
+        out = {"err": "crash:RecursionError", "site": core.crash_site(e)}
+    except Exception as e:  # noqa
+        out = {"err": core.exc_class(e), "site": core.crash_site(e)}
+    try:
+        out["doc"] = codec.node_to_json(d)
+    except Exception:
+        out["doc"] = None
+    return out
+
+
+def w3_model_leaves(res):
+    out = []
+    for leaves in res:
+        ls = []
+        for lf in leaves:
+            x = {"n": lf["n"], "p": lf["p"], "r": None if lf["r"] is None else lf["r"][1]}
+            if lf["n"]["k"] in ("map", "seq", "set"):
+                x["a"] = lf["a"]
+            ls.append(x)
+        out.append(ls)
+    return out
+
+
+def w3_ops(text):
+    return "".join(sorted(set(c for i, c in enumerate(text) if c in "+-&" and i > 0 and text[i - 1] == ")" and text[i + 1:i + 2] == "(")))
+
+
+def w3_chunk(args):
+    """cases: (doc, text, layer).  Real get_nodes(mustexist=True) / exists() against `C01.coll`."""
+    cases, _opts = args
+    core.use_repo()
+    stats = {"n": 0, "oom": 0, "nonempty": 0, "ypath": 0, "crash_agree": 0, "mutated": 0, "virtual_results": 0, "hashsub": 0,
+             "ops": {}}
+    viol, disag, nontrivial = [], [], set()
+    per_sig = {}
+
+    def report(lst, sig, what, case):
+        n = per_sig.get(sig, 0)
+        per_sig[sig] = n + 1
+        if n < 3:
+            lst.append((sig, what, case))
+    reqs = [{"op": "C01.coll", "doc": doc, "path": text} for doc, text, _l in cases]
+    answers = core.Driver().ask(reqs) if reqs else []
+    for (doc, text, layer), mo in zip(cases, answers):
+        stats["n"] += 1
+        case = {"doc": doc, "path": text, "items": [text], "layer": layer}
+        ops = w3_ops(text)
+        stats["ops"][ops] = stats["ops"].get(ops, 0) + 1
+        m_err = err_class(mo["err"])
+        m_ex = mo["exists"]
+        if m_err == "outOfModel" or err_class(m_ex.get("err")) == "outOfModel":
+            stats["oom"] += 1
+            continue
+        esc = "escape:" if layer == "escape" else ""
+        impl = w3_run(doc, text, "req")
+        ex = w3_run(doc, text, "exists")
+        if mo["hashSub"]:
+            stats["hashsub"] += 1
+        # ---- get_nodes(mustexist=True)
+        i_err = impl.get("err")
+        if i_err is not None and i_err != "ypath":
+            if m_err == i_err:
+                stats["crash_agree"] += 1        # the model has the same crash outcome (class of C09-F1, see Props/C15)
+            elif m_err is not None and m_err.startswith("crash"):
+                report(viol, "c01:%scollector-crash-differs:%s" % (esc, ops), "get_nodes(%r): implementation %s at %s, model %s" % (
+                    text, i_err, impl.get("site"), m_err), dict(case, impl=impl, model=mo, prop="C01"))
+            else:
+                report(viol, "crash:%s@%s" % (i_err.split(":", 1)[-1], impl.get("site")),
+                       "req query %r (collector) raised %s at %s; the model has no crash outcome there" % (text, i_err, impl.get("site")),
+                       dict(case, impl=impl, model=mo, prop="C15"))
+        else:
+            m_res = w3_model_leaves(mo["res"])
+            if m_err is None and not m_res and doc["k"] != "null":
+                m_err = "ypath"
+            if (i_err or None) != m_err or (i_err is None and impl["res"] != m_res):
+                report(viol, "c01:%scollector-differs:%s" % (esc, ops), "get_nodes(%r, mustexist=True): implementation %s, model %s" % (
+                    text, i_err or impl["res"], m_err or m_res), dict(case, impl=impl, model=mo, prop="C01"))
+            elif i_err is None:
+                if impl["res"]:
+                    stats["nonempty"] += 1
+                    nontrivial.add(hash((json.dumps(doc, sort_keys=True), text)))
+                if any(len(ls) != 1 for ls in impl["res"]):
+                    stats["virtual_results"] += 1
+            else:
+                stats["ypath"] += 1
+        if impl.get("doc") != mo["doc"]:
+            report(viol, "c01:%scollector-document-differs:%s" % (esc, ops), "document after get_nodes(%r): implementation %s, model %s" % (
+                text, json.dumps(impl.get("doc"))[:300], json.dumps(mo["doc"])[:300]), dict(case, impl=impl, model=mo, prop="C01"))
+        elif impl.get("doc") != doc:
+            stats["mutated"] += 1
+        # ---- exists()
+        e_err = ex.get("err")
+        if e_err is not None and e_err != "ypath":
+            if err_class(m_ex.get("err")) != e_err:
+                if (m_ex.get("err") or "").startswith("crash"):
+                    report(viol, "c01:%scollector-crash-differs:%s" % (esc, ops), "exists(%r): implementation %s, model %s" % (
+                        text, e_err, m_ex), dict(case, impl=ex, model=mo, prop="C01"))
+                else:
+                    report(viol, "crash:%s@%s" % (e_err.split(":", 1)[-1], ex.get("site")),
+                           "exists query %r (collector) raised %s at %s; the model has no crash outcome there" % (
+                               text, e_err, ex.get("site")), dict(case, impl=ex, model=mo, prop="C15"))
+        else:
+            want = ("ypath" if err_class(m_ex.get("err")) == "ypath" else None, m_ex.get("ok"))
+            got = (e_err, ex.get("exists"))
+            if "err" in m_ex and err_class(m_ex["err"]) != "ypath" or want != got:
+                report(viol, "c01:%scollector-exists-differs:%s" % (esc, ops), "exists(%r) = %s, model %s" % (text, got, m_ex),
+                       dict(case, impl=ex, model=mo, prop="C01"))
+        if ex.get("doc") != mo["exdoc"]:
+            report(viol, "c01:%scollector-document-differs:%s" % (esc, ops), "document after exists(%r): implementation %s, model %s" % (
+                text, json.dumps(ex.get("doc"))[:300], json.dumps(mo["exdoc"])[:300]), dict(case, impl=ex, model=mo, prop="C01"))
+    stats["nontrivial"] = len(nontrivial)
+    return stats, viol, disag
+
+
+W3_ESC_DOC = {"k": "map", "e": [["a.b", {"k": "int", "v": "1"}], ["c.d", {"k": "int", "v": "2"}],
+                                 ["c", {"k": "map", "e": [["d", {"k": "int", "v": "3"}]]}],
+                                 ["a", {"k": "map", "e": [["b", {"k": "int", "v": "4"}]]}],
+                                 ["x y", {"k": "int", "v": "5"}]]}
+W3_ESC_PATHS = [r"(a\.b)+(c\.d)", r"(c\.d)+(a\.b)", r"(a\.b)", r"(a.b)+(c\.d)", r"(*)-(c\.d)", r"(*)&(a\.b)", r"(a\.b)+(c.d)",
+                r"(a.b)+(x\ y)", r"((a\.b)+(c\.d))", r"(a\.b)-(c\.d)+(a\.b)"]
+
+
+def w3_cases(rng, n):
+    cases = [(W3_ESC_DOC, t, "escape") for t in W3_ESC_PATHS]
+    for i in range(n):
+        if rng.random() < 0.6:
+            d = w3_shared_doc(rng)
+        else:
+            d = w3_dealias(random_doc(rng, rng.choice([6, 10, 15]), keys=["a", "b", "ab", "c", 1, -1, 0, "x", "y"]))
+        paths = w3_addr_paths(d)
+        cases.append((d, w3_collector(rng, paths), "random"))
+    return cases
